@@ -230,6 +230,66 @@ func (p *Prog) resCheckFunc(c *Ctx, f *Func, typeFilter, why string) int {
 			c.R.Hold("R-RES", p.Pos(d.n.Ast), f.Name, construct, "a deferred closure that closes the variable was registered before this definition", true)
 			continue
 		}
+		// a deferred closure that closes the variable only `if X != nil` covers
+		// exactly the exits on which X is set: an error return after it hands
+		// back X itself, or lies behind X != nil, or X is a named result
+		condBad := false
+		for m := range g.ReachAfter(d.n, nil, nil) {
+			ds, ok := m.Ast.(*ast.DeferStmt)
+			if !ok {
+				continue
+			}
+			fl, ok := ast.Unparen(ds.Call.Fun).(*ast.FuncLit)
+			if !ok {
+				continue
+			}
+			var x *types.Var
+			ast.Inspect(fl.Body, func(y ast.Node) bool {
+				call, ok := y.(*ast.CallExpr)
+				if !ok {
+					return true
+				}
+				se, ok := ast.Unparen(call.Fun).(*ast.SelectorExpr)
+				if !ok || se.Sel.Name != "Close" || identObj(info, se.X) != d.v {
+					return true
+				}
+				for cur := p.Parent(call); cur != nil && cur != ast.Node(fl); cur = p.Parent(cur) {
+					if is, ok := cur.(*ast.IfStmt); ok {
+						if be, ok := ast.Unparen(is.Cond).(*ast.BinaryExpr); ok && be.Op == token.NEQ && isNilIdent(info, be.Y) {
+							if xv, ok := identObj(info, be.X).(*types.Var); ok && isErrorType(xv.Type()) {
+								x = xv
+							}
+						}
+					}
+				}
+				return true
+			})
+			if x == nil || isResultOf(info, f, x) {
+				continue
+			}
+			for r := range g.ReachAfter(m, nil, nil) {
+				rs, ok := r.Ast.(*ast.ReturnStmt)
+				if !ok || len(rs.Results) == 0 {
+					continue
+				}
+				last := rs.Results[len(rs.Results)-1]
+				if !isErrorType(info.TypeOf(last)) || isNilIdent(info, last) || identObj(info, last) == types.Object(x) {
+					continue
+				}
+				behind := g.OnlyViaEdge(r, func(e *Edge) bool {
+					at, ok := edgeAtom(info, e)
+					return ok && at.Kind == "nil" && at.Op == token.NEQ && identObj(info, at.X) == types.Object(x)
+				})
+				if !behind {
+					condBad = true
+					c.R.Violate("R-RES", p.Pos(rs), f.Name, construct,
+						"the deferred cleanup closes "+d.v.Name()+" only if "+x.Name()+" != nil, but this return reports its failure through "+exprStr(last)+" (another variable of the same name, or a fresh value) while "+x.Name()+" may be nil: "+d.v.Name()+" is neither closed nor handed off on this exit: "+why, nil)
+				}
+			}
+		}
+		if condBad {
+			continue
+		}
 		// region in which the paired error variable still refers to this acquisition
 		fresh := map[*Node]bool{}
 		if d.e != nil {
@@ -296,6 +356,21 @@ func (p *Prog) resCheckFunc(c *Ctx, f *Func, typeFilter, why string) int {
 		}
 	}
 	return count
+}
+
+// isResultOf: v is a named result of f.
+func isResultOf(info *types.Info, f *Func, v *types.Var) bool {
+	if f.Type.Results == nil {
+		return false
+	}
+	for _, fd := range f.Type.Results.List {
+		for _, nm := range fd.Names {
+			if info.Defs[nm] == types.Object(v) {
+				return true
+			}
+		}
+	}
+	return false
 }
 
 func isParamOf(info *types.Info, f *Func, v *types.Var) bool {
